@@ -18,6 +18,8 @@ The code as it is, including
 * the forecast's `event.max_power or cur_max_power` (not capped by the rating).
 
 Core Lean only.  Generic number type; the battery is `BatOps`.
+
+The model is the behaviour of the code with the repairs fixes/FW1 … FW5 applied (marked `repair FWn` below).
 -/
 import SpiceEv.Py
 import SpiceEv.Time
@@ -392,7 +394,10 @@ def distributeBalancedBatteries (ops : BatOps α B) (env : FEnv α) (st : FState
     let atLimit := if cw then sim.all (fun b => decide (1 - eps ≤ ops.soc b.bat))
                    else sim.all (fun b => decide (ops.soc b.bat ≤ 0 + eps))
     .ok (atLimit, mid)
-  let total ← bisectM eps body env.fuel (-gc.curMax) (gc.curMax - gc.currentLoad) (0 : α)
+  -- repair FW3: when discharging, `max_power = min(max_power, cur_max + load)` (feed-in headroom)
+  let hi : α := if cw then gc.curMax - gc.currentLoad
+                else pymin (gc.curMax - gc.currentLoad) (gc.curMax + gc.currentLoad)
+  let total ← bisectM eps body env.fuel (-gc.curMax) hi (0 : α)
   -- actual charge / discharge
   batteries.foldlM (fun (st : FState α B) b0 => do
     let b := (st.w.batteries.find? (·.id == b0.id)).getD b0
@@ -561,21 +566,23 @@ def distributePower (ops : BatOps α B) (env : FEnv α) (w : SWorld α B)
     FPy (List (VehicleS α B) × List (String × α)) :=
   if totalPower ≤ 0 ∨ totalNeeded ≤ 0 then .ok (vs, [])
   else do
-    let r ← vs.foldlM (fun (acc : List (VehicleS α B) × List (String × α)) v => do
+    -- the third component is the Python variable `total_power` (repair FW4: greedy subtracts what a vehicle took)
+    let r ← vs.foldlM (fun (acc : List (VehicleS α B) × List (String × α) × α) v => do
       match v.cs with
       | none => .error (.py .keyError)          -- `charging_stations[None]`
       | some csId =>
         let cs ← getStation w csId
         let power ← (match env.strat with
-          | .greedy => (.ok totalPower : FPy α)
+          | .greedy => (.ok acc.2.2 : FPy α)
           | .needy =>
             let f : α := if 0 < totalNeeded then energyNeededFull ops v.bat / totalNeeded else 0
-            .ok (f * totalPower)
+            .ok (f * acc.2.2)
           | _ => .error .notImplemented)
         let power := clampV power cs v
         let r ← ops.load v.bat (some power) none none
-        .ok (acc.1 ++ [{ v with bat := r.1 }], sdSet acc.2 csId r.2)) ([], [])
-    .ok r
+        let total' : α := if env.strat == .greedy then acc.2.2 - r.2 else acc.2.2
+        .ok (acc.1 ++ [{ v with bat := r.1 }], sdSet acc.2.1 csId r.2, total')) ([], [], totalPower)
+    .ok (r.1, r.2.1)
 
 /-- put the vehicles of `upd` (matched by id) into `sim` -/
 def mergeById (sim upd : List (VehicleS α B)) : List (VehicleS α B) :=
@@ -681,7 +688,7 @@ def psV2gChargeSim (ops : BatOps α B) (env : FEnv α) (cs : StationS α) (v : V
     else psV2gChargeSim ops env cs v total bat t rest
 
 /-- discharging search of `distribute_peak_shaving_v2g` -/
-def psV2gDischargeSim (ops : BatOps α B) (env : FEnv α) (v : VehicleS α B)
+def psV2gDischargeSim (ops : BatOps α B) (env : FEnv α) (cs : StationS α) (v : VehicleS α B)
     (d total : α) : B → Int → List (TS α) → FPy (B × Int)
   | bat, t, [] => .ok (bat, t)
   | bat, t, ts :: rest =>
@@ -689,9 +696,10 @@ def psV2gDischargeSim (ops : BatOps α B) (env : FEnv α) (v : VehicleS α B)
     let needed := (ts.fixedLoad + ts.vLoad) - total
     if ops.soc bat ≤ d then .ok (bat, t)
     else if 0 < needed then do
-      let r ← ops.unload bat (some (pymin needed (ops.unloadMaxPower v.bat))) (some d) none
-      psV2gDischargeSim ops env v d total r.1 t rest
-    else psV2gDischargeSim ops env v d total bat t rest
+      -- repair FW2: `min(cur_needed_power, max_discharge_power, cs.max_power)`
+      let r ← ops.unload bat (some (pymin (pymin needed (ops.unloadMaxPower v.bat)) cs.maxPower)) (some d) none
+      psV2gDischargeSim ops env cs v d total r.1 t rest
+    else psV2gDischargeSim ops env cs v d total bat t rest
 
 def psV2gVehicle (ops : BatOps α B) (env : FEnv α) (curWindow : Option Bool)
     (acc : V2gAcc α B) (v0 : VehicleS α B) : FPy (V2gAcc α B) := do
@@ -724,7 +732,11 @@ def psV2gVehicle (ops : BatOps α B) (env : FEnv α) (curWindow : Option Bool)
         | [] => .error (.py .indexError)
         | wt0 :: _ =>
           let avail := tp - wt0.totalLoad
+          -- repair FW5: the current step is bounded by the actual headroom
+          let avail := pymin avail (gc.curMax - gc.currentLoad)
           let avail : α := if avail < v.minChargingPower then 0 else avail
+          -- repair FW1: `clamp_power` before charging
+          let avail := clampV avail cs v
           let r ← ops.load v.bat (some avail) none none
           let (gc', val) := gc.addLoad csId r.2
           let w := (st.w.setVehicle { v with bat := r.1 }).setGc gc'
@@ -737,7 +749,7 @@ def psV2gVehicle (ops : BatOps α B) (env : FEnv α) (curWindow : Option Bool)
       | some d =>
         let noWindowTs := st.ts.filter (fun t => t.window == some false)
         let body (mid : α) (s : Option α × Int) : FPy (Bool × (Option α × Int)) := do
-          let r ← psV2gDischargeSim ops env v d mid v.bat t0 noWindowTs
+          let r ← psV2gDischargeSim ops env cs v d mid v.bat t0 noWindowTs
           .ok (decide (d < ops.soc r.1), (some mid, r.2))
         let (total, curTime) ← bisectM eps body env.fuel (-gc.curMax) gc.curMax (none, curTime)
         match noWindowTs with
@@ -747,8 +759,10 @@ def psV2gVehicle (ops : BatOps α B) (env : FEnv α) (curWindow : Option Bool)
           | none => .error .unboundLocal
           | some tp =>
             let needed := nt0.totalLoad - tp
+            -- repair FW5: the current step is bounded by the actual feed-in headroom
+            let needed := pymin needed (gc.curMax + gc.currentLoad)
             let r ← (if needed < 0 then (.ok (v.bat, 0) : Py (B × α))
-                     else ops.unload v.bat (some (pymin needed maxDis)) (some d) none)
+                     else ops.unload v.bat (some (pymin (pymin needed maxDis) cs.maxPower)) (some d) none)
             let (gc', val) := gc.addLoad csId (-r.2)
             let w := (st.w.setVehicle { v with bat := r.1 }).setGc gc'
             let w := w.setStation { cs with currentPower := cs.currentPower - r.2 }
@@ -818,7 +832,7 @@ def distributePeakShavingBatteries (ops : BatOps α B) (env : FEnv α) (st : FSt
           let r ← ops.load b.bat (some (avail / (nb : α))) none none
           let w := (st.w.setBattery { b with bat := r.1 }).setGc (gc.addLoad b.id r.2).1
           .ok ({ st with w := w, ts := addTotal0 st.ts r.2 }, avail)
-        else .ok (st, avail)) (st, tp - t0.totalLoad)
+        else .ok (st, avail)) (st, pymin (tp - t0.totalLoad) (gc.curMax - gc.currentLoad))
       .ok r.1
   else
     let newTs := idxPrefix 0 (st.ts.filter (fun t => !truthy t.window))
@@ -831,7 +845,7 @@ def distributePeakShavingBatteries (ops : BatOps α B) (env : FEnv α) (st : FSt
     | [], _ => .error (.py .indexError)
     | _, none => .error .unboundLocal
     | t0 :: _, some tp =>
-      let needed := t0.totalLoad - tp
+      let needed := pymin (t0.totalLoad - tp) (gc.curMax + gc.currentLoad)
       batteries.foldlM (fun (st : FState α B) b0 => do
         let b := (st.w.batteries.find? (·.id == b0.id)).getD b0
         let gc ← theGc st.w
